@@ -91,16 +91,35 @@ func c02Run(cs c02Case) (fs []F) {
 	cf := full(child)
 	mcf, _ := mchild.slice(0, mchild.capacity())
 	tok := tk(int64(len(st.cells) + 1))
-	for k := 0; k < mcf.n; k++ {
+	// small windows: every cell, whole storage compared after every write; large ones: a sparse set of
+	// cells (ends, middle, every 97th), whole storage compared after the first and the last write
+	cellsOf := func(n int) []int {
+		if n <= 200 {
+			r := make([]int, n)
+			for i := range r {
+				r[i] = i
+			}
+			return r
+		}
+		r := []int{0, 1, n / 2, n - 2, n - 1}
+		for i := 97; i < n-2; i += 97 {
+			r = append(r, i)
+		}
+		return r
+	}
+	ks := cellsOf(mcf.n)
+	for i, k := range ks {
 		cf.SetSample(k, dyn.Tok(t, tok))
 		mcf.set(k, tok)
 		tok = tk(tok + 1)
-		if d := cmpStore(obs, st); d != "" {
-			fail("alias", "after writing sample %d through the child: %s", k, d)
-			return
+		if mcf.n <= 200 || i == 0 || i == len(ks)-1 {
+			if d := cmpStore(obs, st); d != "" {
+				fail("alias", "after writing sample %d through the child: %s", k, d)
+				return
+			}
 		}
 	}
-	for k := 0; k < mcf.n; k++ {
+	for _, k := range ks {
 		obs.SetSample(mcf.off+k, dyn.Tok(t, tok))
 		if g := cf.Sample(k).Tok(); g != tok {
 			fail("alias", "a write to parent storage position %d is not seen through child sample %d (reads %d, want %d)", mcf.off+k, k, g, tok)
@@ -210,7 +229,7 @@ func init() {
 			var bigJobs []job
 			for _, t := range []int{dyn.Int8, dyn.Uint16, dyn.Float32, dyn.Int64} {
 				for C := 1; C <= 4; C++ {
-					for _, K := range []int{17, 100} {
+					for _, K := range []int{17, 100, 1200} {
 						for _, L := range []int{0, K / 2, K} {
 							bigJobs = append(bigJobs, job{t, root{C, L, K, 0}})
 						}
@@ -220,9 +239,6 @@ func init() {
 			c.ParallelFor(len(bigJobs), func(i int) {
 				j := bigJobs[i]
 				K := j.r.K
-				if K*j.r.C > 100 {
-					K = 100 / j.r.C // tokens stay below 120
-				}
 				var n int64
 				pts := func(cp int) []int {
 					return []int{-1, 0, 1, 2, cp / 2, cp - 1, cp, cp + 1, math.MaxInt/j.r.C + 1, math.MinInt}
